@@ -261,9 +261,28 @@ class TypeParameter(AbstractType):
         bound = self.bound
         if bound == other:
             return True
-        if hasattr(bound, "get_type_variables"):
-            return other in bound.get_type_variables(None)
-        return False
+        return other in self._get_enclosing_type_variables(bound)
+
+    @staticmethod
+    def _get_enclosing_type_variables(t: Type) -> set:
+        """
+        Collect the type variables that appear in the given type. Unlike
+        `get_type_variables()`, the bounds of these type variables are not
+        computed, so no builtin factory is required.
+        """
+        if t is None:
+            return set()
+        if t.is_type_var():
+            return {t}
+        if t.is_wildcard():
+            return TypeParameter._get_enclosing_type_variables(t.bound)
+        if t.is_parameterized():
+            type_vars = set()
+            for t_arg in t.type_args:
+                type_vars.update(
+                    TypeParameter._get_enclosing_type_variables(t_arg))
+            return type_vars
+        return set()
 
     def get_bound_rec(self, factory):
         """
